@@ -421,7 +421,7 @@ def _decide_bit_scan(prog: Program, col: Collector, ref: FuncRef, name: str, mm:
         return bad("the cursor is shifted only conditionally: the scan does not advance on every iteration")
     if k is None or k < 1:
         return unknown(f"shift by {short(sh.value, 30)}")
-    if test not in (xh, ("cmp", "!=", xh, ("const", 0)), ("cmp", ">", xh, ("const", 0))):
+    if test not in (xh, ("cmp", "!=", xh, ("const", 0)), ("cmp", "!=", ("const", 0), xh), ("cmp", "<", ("const", 0), xh)):
         return bad(f"the scan stops on `{short(test, 50)}` instead of when the cursor is exhausted: higher bits may be skipped")
     init = [e for e in ft.of_kind("assign") if e.data.get("name") == xname and e.seq < lp.seq]
     if not init or init[-1].value != ID:
@@ -687,8 +687,8 @@ def rule_k1_k2(prog: Program, col: Collector) -> None:
     okw = False
     for r in wit:
         g = [f for f in r.ctx if f[0] == "if"]
-        if g and g[-1][2] is True and g[-1][1][0] == "cmp" and g[-1][1][1] == ">":
-            l, rr = g[-1][1][2], g[-1][1][3]
+        if g and g[-1][2] is True and g[-1][1][0] == "cmp" and g[-1][1][1] == "<":      # canonical orientation: rhs + tol < lhs
+            l, rr = g[-1][1][3], g[-1][1][2]
             okw = rr[0] == "bin" and rr[1] == "+" and rr[3] == ("param", "tolerance") and l[0] == "bin" and l[1] == "-" and rr[2][0] == "bin" and rr[2][1] == "-"
     col.check(okw, ref.where(), ref.short, "witness returned iff (v(S+i) - v(S)) > (v(T+i) - v(T)) + tolerance", construct="smod-compare", necessity="")
     loops = [e for e in ft.of_kind("loop") if e.iter is not None]
